@@ -273,6 +273,9 @@ class TemplatedType:
         self.is_shared_ptr = is_shared_ptr
         self.is_ptr = is_ptr
         self.is_ref = is_ref
+        # a template-id is never a basic type (the instantiator reads this
+        # attribute of every type it rewrites)
+        self.is_basic = False
 
     @staticmethod
     def from_parse_result(t: ParseResults):
